@@ -26,6 +26,26 @@ import (
 func init() {
 	core.Register("C11", "relay", runRelay)
 	core.Register("C11", "stress", runStress)
+	// the live relay's MTU bookkeeping (reply size limit follows the client's address family) also decides C05
+	core.Register("C05", "live-roam", runRoamOnly)
+}
+
+func runRoamOnly(e *core.Env) {
+	e.Rec.Rule("live-roam: the real session relay (both batch modes, both key sizes): an SS2022 client session moves from an IPv4 to an IPv6 address; replies sized at the IPv4 limit, the IPv6 limit and in between must be delivered / refused according to the client's CURRENT address family; class = (protocol, batch mode)")
+	vtime.Freeze()
+	k := 0
+	for _, S := range []string{"ss128", "ss256"} {
+		for _, b := range []string{"", "no"} {
+			ci := k
+			k++
+			if e.Only >= 0 && e.Only != ci {
+				continue
+			}
+			e.Rec.Begin("relay", ci, "roam "+S+" "+b)
+			e.Rec.Eval()
+			core.Guard(e, "relay", ci, func() { roamCase(e, ci, S, b) })
+		}
+	}
 }
 
 // payload = magic | session | seq | target tag(8) | filler
@@ -192,6 +212,117 @@ func runRelay(e *core.Env) {
 		rec.Eval()
 		relayCase(e, i, r, j.S, j.C, j.batch)
 	})
+	// client address family change (SS2022 sessions follow the client's latest address)
+	k := len(jobs)
+	for _, S := range []string{"ss128", "ss256"} {
+		for _, b := range []string{"", "no"} {
+			ci := k
+			k++
+			if e.Only >= 0 && e.Only != ci {
+				continue
+			}
+			rec.Begin("relay", ci, "roam "+S+" "+b)
+			rec.Eval()
+			core.Guard(e, "relay", ci, func() { roamCase(e, ci, S, b) })
+		}
+	}
+}
+
+// roamCase: an SS2022 session moves from an IPv4 to an IPv6 client address; the size limit of replies must follow.
+func roamCase(e *core.Env, ci int, S, batch string) {
+	rec := e.Rec
+	dnsOnce.Do(func() { fakeDNS = svx.InstallFakeDNS() })
+	ports := svx.FreePorts(2)
+	t := &svx.Topo{Dir: filepath.Join(e.WorkDir, fmt.Sprintf("roam-%d", ci))}
+	cfg := map[string]any{
+		"servers": []any{t.Server("A", S, ports[0], svx.ServerOpts{UDP: true, BatchMode: batch, Host: "[::]"})},
+		"clients": []any{svx.Direct("direct")},
+	}
+	inst, err := svx.Start(svx.JSON(cfg))
+	if err != nil {
+		rec.Inconclusive("roam setup: " + err.Error())
+		return
+	}
+	defer inst.Stop(20 * time.Second)
+	viol := func(kind, format string, a ...any) {
+		rec.Violate("relay", ci, core.Sig("kind", kind, "part", "relay", "S", S, "C", "direct", "batch", batch, "scenario", "roam"), map[string]any{"logs": inst.LogLines(15)}, format, a...)
+	}
+	if !inst.WaitLogs("relay service listener", 1, 10*time.Second) {
+		rec.Inconclusive("roam listeners")
+		return
+	}
+	down, err := svx.NewClient(svx.JSON(t.ClientFor("down", "A", S, ports[0], 0, false, true)))
+	if err != nil {
+		rec.Inconclusive("roam client")
+		return
+	}
+	tg, err := svx.NewUDPTarget("R", "127.0.0.2", ports[1])
+	if err != nil {
+		rec.Inconclusive("roam target")
+		return
+	}
+	defer tg.Close()
+	// the target answers with as many bytes as the request asks for
+	tg.Reply = func(in []byte) []byte {
+		var n int
+		fmt.Sscanf(string(in), "LEN:%d", &n)
+		return core.Pattern(uint64(n), 0, n)
+	}
+	p, err := down.NewUDPPeer("127.0.0.1")
+	if err != nil {
+		rec.Inconclusive("roam peer")
+		return
+	}
+	defer p.Close()
+	target := conn.AddrFromIPPort(tg.Addr)
+	ask := func(n int, via netip.AddrPort) {
+		if via.IsValid() {
+			p.SendVia(target, []byte(fmt.Sprintf("LEN:%d", n)), via)
+		} else {
+			p.Send(target, []byte(fmt.Sprintf("LEN:%d", n)))
+		}
+	}
+	got := func(n int) bool {
+		for _, d := range p.Got() {
+			if len(d.Payload) == n {
+				return true
+			}
+		}
+		return false
+	}
+	// server->client overhead for an IPv4 source: 16 (separate header) + 19 (fixed header) + 7 (address) + 16 (tag); no padding (port != 53)
+	const overhead = 16 + 19 + 7 + 16
+	v4max, v6max := 1500-28-overhead, 1500-48-overhead
+	ask(v4max, netip.AddrPort{})
+	if !svx.Poll(8*time.Second, func() bool { return got(v4max) }) {
+		viol("fitting_reply_dropped", "a reply of %d bytes that fits the IPv4 path was not delivered", v4max)
+		return
+	}
+	// roam to IPv6
+	if err := p.Rebind("::1"); err != nil {
+		rec.Inconclusive("no IPv6 loopback")
+		return
+	}
+	v6 := netip.MustParseAddrPort(fmt.Sprintf("[::1]:%d", ports[0]))
+	ask(v6max, v6)
+	if !svx.Poll(8*time.Second, func() bool { return got(v6max) }) {
+		viol("fitting_reply_dropped", "after the client moved to IPv6 a reply of %d bytes that fits the IPv6 path was not delivered", v6max)
+		return
+	}
+	ask(v6max+6, v6) // fits IPv4, not IPv6
+	ask(33, v6)      // marker: processed after the oversize one
+	if !svx.Poll(8*time.Second, func() bool { return got(33) }) {
+		viol("datagram_or_reply_lost", "marker reply after roaming did not arrive")
+		return
+	}
+	for _, d := range p.Got() {
+		if d.Raw.Addr().Is6() && !d.Raw.Addr().Is4In6() && d.RawLen > 1500-48 {
+			viol("mtu_exceeded", "after the client moved to an IPv6 address the relay sent it a %d-byte packet; the IPv6 path allows %d", d.RawLen, 1500-48)
+			return
+		}
+	}
+	rec.Class("%s>direct/batch=%q/roam-v4-to-v6", S, batch)
+	rec.Count("roam_cases", 1)
 }
 
 func relayCase(e *core.Env, ci int, r *core.RNG, S, C, batch string) {
